@@ -378,6 +378,13 @@ func (tn *Town) install() {
 			ad := Doc{"id": act.ID, "type": act.Kind, "actor": a.ID, "published": act.Object.Published.Format(time.RFC3339)}
 			if act.Kind == "Create" && act.Object.Host == a.Host && t.Chance(1, 2) {
 				ad["object"] = act.Object.Doc
+			} else if act.Kind != "Create" && len(act.Object.Authors) > 0 && t.Chance(1, 4) {
+				// Lemmy style: the boosted thing is given as an inline Create that wraps the post
+				wrap := Doc{"type": "Create", "actor": act.Object.Authors[0].ID, "object": act.Object.ID}
+				if t.Chance(1, 2) {
+					wrap["id"] = fmt.Sprintf("https://%s/act/wrap-%d", act.Object.Host, f.next())
+				}
+				ad["object"] = wrap
 			} else {
 				ad["object"] = act.Object.ID
 			}
